@@ -151,6 +151,18 @@ def add_fixed_contracts(w, targets):
                  raises={struct.error: m_raises}, pure=True)
         targets.append('txdbus.marshal.marshal_' + nm)
 
+        if code == 'b':
+            # BOOLEAN is 0 or 1 on the wire whatever truthy Python value was given: the same encoder, its argument an integer
+            def mi_post(cx):
+                r = cx.result
+                if not (isinstance(r, VTuple) and len(r.items) == 2 and isinstance(r.items[1], VChunks)):
+                    return [('shape', z3.BoolVal(False))]
+                img = packed('I', cx.args['lendian'].term, z3.If(cx.a('var') != 0, 1, 0))
+                return [('width', r.items[0].term == 4), ('bytes: 1 for any non-zero integer, 0 for zero', r.items[1].flat == img), ('count-is-length', count_is_length(r))]
+            contract(w, 'txdbus.marshal.marshal_boolean#int', {'ct': STR, 'var': INT, 'start_byte': INT, 'lendian': BOOL, 'oobFDs': OPAQUE},
+                     fn=mfn, result=TupleT(INT, CHUNKS), ensures=mi_post, pure=True)
+            targets.append('txdbus.marshal.marshal_boolean#int')
+
         def u_post(cx, code=code, ch=ch, width=width):
             r = cx.result
             if not (isinstance(r, VTuple) and len(r.items) == 2):
